@@ -300,7 +300,11 @@ static void judge(Ctx& ctx, const Case& c, bool from_replay) {
     bool onR = false;
     int W = winding(R, q, &onR);
     if (!onR && W != 0 && W != sigma) {
-      ctx.violation("C06.orientation", { "winding_out_of_range", small ? "small_delta" : dirtag }, c,
+      // classifier: does some result path cross itself or another result path (exact)? then the clean-up union returned a
+      // self-intersecting boundary with an inverted lobe; otherwise a whole path has the wrong orientation
+      bool selfx = false; { std::vector<std::pair<Point64, Point64>> es; for (auto& p : R) for (size_t a = 0; a < p.size(); ++a) es.push_back({ p[a], p[(a + 1) % p.size()] });
+        for (size_t a = 0; a < es.size() && !selfx; ++a) for (size_t b = a + 1; b < es.size(); ++b) if (proper_cross(es[a].first, es[a].second, es[b].first, es[b].second)) { selfx = true; break; } }
+      ctx.violation("C06.orientation", { "winding_out_of_range", small ? "small_delta" : dirtag, selfx ? "winding_out_of_range@result_boundary_crosses_itself" : "winding_out_of_range@result_boundary_simple" }, c,
         "winding number of the result at " + ptstr(q) + " (outside the tolerance band) is " + std::to_string(W) + ", only 0 and " + std::to_string(sigma) + " are possible");
       return;
     }
